@@ -3,7 +3,7 @@ import ast
 
 from ..model import AnalysisError
 from ..terms import SELF, FAC, NONE, show, is_const, mentions, subterms
-from ..fieldroles import no_interval, no_interval_conds, is_interval_field
+from ..fieldroles import no_interval, no_interval_conds, is_interval_field, interval_conflict
 from ..catalogue import catalogue, is_effect
 from .common import where, cls_short, contexts, capabilities, types, short, written_object
 
@@ -77,6 +77,10 @@ def check(ctx):
         # ---- R-RETRY: timer targets ----------------------------------------------------
         for ent in cat.by_kind("TIMER"):
             params = [q for q in ent.func.params if q != "self"]
+            if not params and ent.func.parent is not None:
+                # a closure: what it captured from the frame that made it plays the part of the parameter
+                params = sorted(k for (fq, k), cl in ty.param_cls.items() if fq == ent.func.qual
+                                and {c.split(".")[-1] for c in cl} & set(RETRY_KINDS))
             if not params:
                 continue      # deadline closures (connect timeout, ping) are not retry timers
             req = ("param", params[0])
@@ -105,15 +109,19 @@ def check(ctx):
                        where=where(ws[0]) if ws else w, function=ent.func.qual, construct="%s/write" % ent.func.qual,
                        msg="%d writes on an expiry path / not the stored packet of the request" % len(ws))
                 facts = p.st.facts if p.st is not None else {}
+                if interval_conflict(facts, req):
+                    continue      # markers of one request tested opposite ways: not a path that can happen
                 if no_interval(facts, req):
                     a_ok = len(arms) == 0
                 else:
-                    a_ok = len(arms) == 1 and isinstance(arms[0].a["target"], tuple) and arms[0].a["target"][0] == "bm" \
-                        and arms[0].a["target"][2].qual == ent.func.qual and tuple(arms[0].a["args"]) == (req,)
+                    t0 = arms[0].a["target"] if arms else None
+                    a_ok = len(arms) == 1 and isinstance(t0, tuple) and (
+                        (t0[0] == "bm" and t0[2].qual == ent.func.qual and tuple(arms[0].a["args"]) == (req,)) or
+                        (t0[0] == "closure" and t0[1].qual == ent.func.qual and req in arms[0].a["args"]))
                 ctx.ob("R-RETRY", "%s %s expiry re-arms its own timer for the same request" % (cq, kind), a_ok,
                        where=where(arms[0]) if arms else w, function=ent.func.qual, construct="%s/rearm" % ent.func.qual,
                        msg="expiry path arms %s" % [(show(x.a["target"]), [show(y) for y in x.a["args"]]) for x in arms])
-                if arms and not no_interval:
+                if arms and not no_interval(facts, req):
                     st = [e for e in evs if e.kind == "SETATTR" and e.a["obj"] == req and e.a["val"] == arms[0].a["handle"]]
                     ctx.ob("R-RETRY", "%s %s expiry stores the new handle on the request" % (cq, kind), len(st) == 1,
                            where=where(arms[0]), function=ent.func.qual, construct="%s/handle-store" % ent.func.qual, nontrivial=False,
